@@ -382,6 +382,7 @@ def main(run):
         rep = {"kind": "correspondence-broken", "theorem": "C10_method_exists_iff_signature_accepted",
                "correspondence": "L2:C10:shoot rest exit class vs cook_results (Model/RestHandle.v)",
                "signature": m.decl(), "label": label, "shoot_rc": r["rc"], "shoot_stderr": r["err"][-1500:],
+               "pkg": {"name": p.name, "ifaces": [i.name for i in p.ifaces]},
                "sources": g.render_go(p), "how": "cd %s && shoot rest -type=%s && go build ." % (p.name, p.ifaces[0].name)}
         no_input = True
         if label != "accepted" and r["rc"] == 0:
@@ -401,6 +402,7 @@ def main(run):
                                    "returns anything (C10_method_exists_iff_signature_accepted predicts a working method)",
                            "correspondence": "L2:C10:go build of the generated client",
                            "build_errors": res[p.name]["build_errors"][:20], "sources": g.render_go(p),
+                           "pkg": {"name": p.name, "ifaces": [i.name for i in p.ifaces]},
                            "how": "cd %s && shoot rest -type=%s && go build ." % (p.name, ",".join(i.name for i in p.ifaces))})
     live = [p for p in pkgs if res[p.name]["rc"] == 0 and not res[p.name].get("build_errors")]
 
@@ -430,6 +432,9 @@ def main(run):
                        "theorem": "C10_method_refines_spec (and the per-class theorems of Properties/C10.v)",
                        "correspondence": "L2:C10:c10drv vs Model/RestHandle.v",
                        "case": pub(c), "signature": c["_m"].decl(), "observed": o,
+                       "pkg": {"name": p.name, "ifaces": [i.name for i in p.ifaces]},
+                       "method": {"name": c["_m"].name, "verb": c["_m"].verb, "ctx": c["_m"].ctx,
+                                  "results": c["_m"].results},
                        "expected_by_model": model_says(run, c, o),
                        "coq_case": coq_case(c, o, g.coq_fields(c["_m"].results)),
                        "sources": g.render_go(p),
@@ -458,7 +463,7 @@ def main(run):
         decs[c["_label"] + "->" + d] = decs.get(c["_label"] + "->" + d, 0) + 1
         if o["err"] is not None or (o.get("dec") and o["dec"]["class"] != "ok") or c["body"] == "":
             nontrivial.add((c["iface"], c["method"], c["status"], c["body"], c["body_fault"]))
-    sample_idx = [0, len(cases) // 3, len(cases) // 2, len(cases) - 1]
+    sample_idx = [0, len(cases) // 3, len(cases) // 2, len(cases) - 1] if cases else []
     swept = sorted({c["status"] for c in cases if c["mode"] in ("srv", "fab")})
     cov = {
         "evaluations": len(cases) + len(entries),
@@ -521,22 +526,54 @@ def main(run):
     ])
 
 
+def _tuples(x):
+    """JSON lists back to the tuples of rest10gen type expressions"""
+    if isinstance(x, list):
+        return tuple(_tuples(y) for y in x)
+    return x
+
+
 def replay(run, path):
     r = json.load(open(path))
     run.prove("Properties/C10.v", ["Corr/RestHandleCorr.v"])
-    if "case" not in r:
+    if "pkg" not in r or "sources" not in r:
         print("nothing to replay (no concrete input in %s)" % path)
         return 0
-    pkgs, rpkgs = gen_packages(run)             # same seed -> same packages
-    name = r["case"]["iface"].split(".")[0]
-    pkgs = [p for p in pkgs if p.name == name]
-    if not pkgs or g.render_go(pkgs[0]) != r.get("sources"):
-        print("cannot rebuild the package of the replay file from seed %s" % run.seed)
-        return 3
-    shoot, mod, drv, res, files, wit = setup(run, pkgs, [], witness=False)
+    if "case" not in r:
+        # a signature whose client did not compile: generate and build again
+        shoot = run.build_shoot()
+        mod = l2.make_module(run, MODULE)
+        l2.write_files(mod, r["sources"])
+        name = r["pkg"]["name"]
+        sr = l2.run_shoot(shoot, mod / name, ["rest", "-type=" + ",".join(r["pkg"]["ifaces"])], timeout=120)
+        ok, errs = (True, {}) if sr["rc"] != 0 else l2.go_build(mod, ["./" + name])
+        print("shoot rc=%s; go build ok=%s %s" % (sr["rc"], ok, json.dumps(errs)[:800]))
+        if sr["rc"] == 0 and not ok:
+            print("VIOLATION property=C10 replay=%s" % path)
+            return 1
+        return 0
+    # rebuild the package from the stored sources (no generator involved)
+    ms = r["method"]
+    m = g.Method(ms["name"], ms["verb"], ms["ctx"], [(list(n), _tuples(t)) for n, t in ms["results"]])
+    pkg = g.Pkg(r["pkg"]["name"], [g.Iface(n, []) for n in r["pkg"]["ifaces"]])
+    shoot = run.build_shoot()
+    mod = l2.make_module(run, MODULE)
+    l2.write_files(mod, r["sources"])
+    sr = l2.run_shoot(shoot, mod / pkg.name, ["rest", "-type=" + ",".join(r["pkg"]["ifaces"])], timeout=120)
+    if sr["rc"] != 0:
+        print("shoot rest failed on the stored package: %s" % sr["err"][-800:])
+        print("VIOLATION property=C10 replay=%s" % path)
+        return 1
+    l2.write_files(mod, {"cmd/c10drv/main.go": (lib.VERIF / "harness/go/cmd/c10drv/main.go").read_text(),
+                         "cmd/c10drv/zz_registry.go": g.registry_go(MODULE, [pkg])})
+    drv = run.scratch / "bin" / "c10drv"
+    ok, err = l2.go_build_bin(mod, "./cmd/c10drv", drv)
+    if not ok:
+        print("the generated client does not compile: %s" % err[-1500:])
+        print("VIOLATION property=C10 replay=%s" % path)
+        return 1
     c = dict(r["case"])
-    m = [m for i, m in pkgs[0].methods() if "%s.%s" % (name, i.name) == c["iface"] and m.name == c["method"]][0]
-    c.update({"_m": m, "_p": pkgs[0], "_label": ""})
+    c.update({"_m": m, "_p": pkg, "_label": ""})
     o = run_driver(drv, [c])[0]
     mism, _ = coq_shards(run, "c10replay", [c], [o])
     print("observed:", json.dumps(o), "verdict:", mism)
